@@ -11,6 +11,6 @@ for d in sorted(glob.glob("/verif/seeded/%s?" % pid)):
 extra = """
 ADDITIONAL CONSTRAINTS FOR THIS ROUND: other engineers have already produced the following changes for this property; yours must be of a DIFFERENT kind and in a different place or mechanism (do not re-do these ideas or small variations of them):
 %s
-Use the suffixes e and f (directories %s/%se and %s/%sf) instead of a and b. Prefer subtle changes whose effect depends on an INTERACTION (two language features used together, a particular order of API calls or of statements, a value at a boundary such as 0 / negative / empty / very large / repeated, names that resemble keywords or other names, state left over from an earlier call, a platform/environment aspect such as the working directory, line endings or hash seed), so that a test which exercises each feature separately would not notice.
+Use the suffixes g and h (directories %s/%sg and %s/%sh) instead of a and b. Prefer subtle changes whose effect depends on an INTERACTION (two language features used together, a particular order of API calls or of statements, a value at a boundary such as 0 / negative / empty / very large / repeated, names that resemble keywords or other names, state left over from an earlier call, a platform/environment aspect such as the working directory, line endings or hash seed), so that a test which exercises each feature separately would not notice.
 """ % ("\n".join(tried), out, pid, out, pid)
-print(base.replace("Finish by reporting", extra + "\nFinish by reporting").replace("each change k in (a, b)", "each change k in (e, f)"))
+print(base.replace("Finish by reporting", extra + "\nFinish by reporting").replace("each change k in (a, b)", "each change k in (g, h)"))
